@@ -24,7 +24,8 @@ sys.path.insert(0, HERE)
 if '/repo' not in sys.path:
     sys.path.insert(0, '/repo')
 
-import svsim                                                   # noqa: E402
+
+pytestmark = pytest.mark.filterwarnings('ignore::DeprecationWarning', 'ignore::SyntaxWarning')
 from svsim import (SvCombLoop, SvElabError, SvSyntaxError, SvUnsupported,  # noqa: E402
                    elaborate, parse)
 
